@@ -76,3 +76,9 @@ Properties/C01.vos Properties/C01.vok Properties/C01.required_vos: Properties/C0
 Properties/C02.vo Properties/C02.glob Properties/C02.v.beautified Properties/C02.required_vo: Properties/C02.v Model/Base.vo Model/MachineInt.vo Model/VarintParams.vo Gen/GenArith.vo Gen/GenLoops.vo Model/Varint.vo Model/Utf8.vo Model/DataModel.vo Model/Ser.vo Model/De.vo Spec/WireFormat.vo Proofs/VarintFacts.vo Proofs/VarintCore.vo Proofs/ZigZagFacts.vo Proofs/SerFacts.vo
 Properties/C02.vio: Properties/C02.v Model/Base.vio Model/MachineInt.vio Model/VarintParams.vio Gen/GenArith.vio Gen/GenLoops.vio Model/Varint.vio Model/Utf8.vio Model/DataModel.vio Model/Ser.vio Model/De.vio Spec/WireFormat.vio Proofs/VarintFacts.vio Proofs/VarintCore.vio Proofs/ZigZagFacts.vio Proofs/SerFacts.vio
 Properties/C02.vos Properties/C02.vok Properties/C02.required_vos: Properties/C02.v Model/Base.vos Model/MachineInt.vos Model/VarintParams.vos Gen/GenArith.vos Gen/GenLoops.vos Model/Varint.vos Model/Utf8.vos Model/DataModel.vos Model/Ser.vos Model/De.vos Spec/WireFormat.vos Proofs/VarintFacts.vos Proofs/VarintCore.vos Proofs/ZigZagFacts.vos Proofs/SerFacts.vos
+Proofs/DeSpec.vo Proofs/DeSpec.glob Proofs/DeSpec.v.beautified Proofs/DeSpec.required_vo: Proofs/DeSpec.v Model/Base.vo Model/MachineInt.vo Model/VarintParams.vo Gen/GenArith.vo Gen/GenLoops.vo Model/Varint.vo Model/Utf8.vo Model/DataModel.vo Model/Ser.vo Model/De.vo Spec/WireFormat.vo Proofs/BaseFacts.vo Proofs/BitFacts.vo Proofs/VarintFacts.vo Proofs/VarintCore.vo Proofs/ZigZagFacts.vo Proofs/ValueInd.vo Proofs/FixintFacts.vo Proofs/DeFacts.vo
+Proofs/DeSpec.vio: Proofs/DeSpec.v Model/Base.vio Model/MachineInt.vio Model/VarintParams.vio Gen/GenArith.vio Gen/GenLoops.vio Model/Varint.vio Model/Utf8.vio Model/DataModel.vio Model/Ser.vio Model/De.vio Spec/WireFormat.vio Proofs/BaseFacts.vio Proofs/BitFacts.vio Proofs/VarintFacts.vio Proofs/VarintCore.vio Proofs/ZigZagFacts.vio Proofs/ValueInd.vio Proofs/FixintFacts.vio Proofs/DeFacts.vio
+Proofs/DeSpec.vos Proofs/DeSpec.vok Proofs/DeSpec.required_vos: Proofs/DeSpec.v Model/Base.vos Model/MachineInt.vos Model/VarintParams.vos Gen/GenArith.vos Gen/GenLoops.vos Model/Varint.vos Model/Utf8.vos Model/DataModel.vos Model/Ser.vos Model/De.vos Spec/WireFormat.vos Proofs/BaseFacts.vos Proofs/BitFacts.vos Proofs/VarintFacts.vos Proofs/VarintCore.vos Proofs/ZigZagFacts.vos Proofs/ValueInd.vos Proofs/FixintFacts.vos Proofs/DeFacts.vos
+Properties/C03.vo Properties/C03.glob Properties/C03.v.beautified Properties/C03.required_vo: Properties/C03.v Model/Base.vo Model/MachineInt.vo Model/VarintParams.vo Gen/GenArith.vo Gen/GenLoops.vo Model/Varint.vo Model/Utf8.vo Model/DataModel.vo Model/Ser.vo Model/De.vo Spec/WireFormat.vo Proofs/VarintFacts.vo Proofs/VarintCore.vo Proofs/DeFacts.vo Proofs/DeSpec.vo
+Properties/C03.vio: Properties/C03.v Model/Base.vio Model/MachineInt.vio Model/VarintParams.vio Gen/GenArith.vio Gen/GenLoops.vio Model/Varint.vio Model/Utf8.vio Model/DataModel.vio Model/Ser.vio Model/De.vio Spec/WireFormat.vio Proofs/VarintFacts.vio Proofs/VarintCore.vio Proofs/DeFacts.vio Proofs/DeSpec.vio
+Properties/C03.vos Properties/C03.vok Properties/C03.required_vos: Properties/C03.v Model/Base.vos Model/MachineInt.vos Model/VarintParams.vos Gen/GenArith.vos Gen/GenLoops.vos Model/Varint.vos Model/Utf8.vos Model/DataModel.vos Model/Ser.vos Model/De.vos Spec/WireFormat.vos Proofs/VarintFacts.vos Proofs/VarintCore.vos Proofs/DeFacts.vos Proofs/DeSpec.vos
